@@ -24,8 +24,8 @@ def run_frame(m, ecs, animate, world, delta):
 
 
 def step_obligations(tier):
-    """(has_timeline, has_target)"""
-    return [(True, True), (False, True), (True, False)]
+    """(has_timeline, has_target, other entity iterated first: None | 'no_timeline' | 'with_timeline')"""
+    return [(True, True, None), (False, True, None), (True, False, None), (True, True, 'no_timeline'), (True, True, 'with_timeline')]
 
 
 def main(tier):
@@ -36,7 +36,7 @@ def main(tier):
     tls = AbsTimelines()
     TERM = z3.Function('BTL_TERM_0', F32, F32)
     results = []
-    for has_tl, has_tgt in step_obligations(tier):
+    for has_tl, has_tgt, other in step_obligations(tier):
         world = World()
         ecs = Ecs(prog, enums, world, tls)
         m = Machine(prog, enums, overrides=ecs.overrides())
@@ -49,10 +49,20 @@ def main(tier):
             world.entities = []; tls.fapps = []
             m.assume(z3.And(z3.ULE(st, 3), z3.ULE(pos, z3.BitVecVal(DUR_MAX, 128)), z3.ULE(delta, z3.BitVecVal(2 ** 64, 128))))
             for c in tls.valid(0): m.assume(c)
+            if other:
+                # an unrelated animator on another entity, iterated first: arbitrary enabled flag / state / position; what it does must
+                # not affect the judged animator (e.g. a disabled or timeline-less animator must not end the system's run)
+                o_en = z3.Bool('other_enabled'); o_pos = z3.BitVec('other_pos', 128); o_st = z3.BitVec('other_state', 64)
+                m.assume(z3.And(z3.ULE(o_st, 3), z3.ULE(o_pos, z3.BitVecVal(1 << 70, 128))))
+                if other == 'with_timeline':
+                    for c in tls.valid(5): m.assume(c)
+                oe = world.add({'Animator': animator_val(o_en, o_pos, tls.tl(5) if other == 'with_timeline' else None, o_st), 'T': Agg('T', [Sc('f32', z3.FP('other_x', F32))])})
+                oe['changed'] = set()
             comps = {'Animator': animator_val(enabled, pos, tls.tl(0) if has_tl else None, st)}
             if has_tgt: comps['T'] = Agg('T', [Sc('f32', x0)])
             ent = world.add(comps); ent['changed'] = set()
             ev = run_frame(m, ecs, animate, world, delta)
+            ev = [e for e in ev if entity_id(m, e.f[0]) == ent['id']]
             a = ent['comps']['Animator'].v
             return dict(anim=clone(a), target=(clone(ent['comps']['T'].v) if has_tgt else None), events=ev, changed=set(ent['changed']))
 
@@ -73,6 +83,7 @@ def main(tier):
             evs = o['events']
             ax = []
             for val, v, t, k in tls.fapps:
+                if k != 0: continue
                 ax.append(z3.Implies(z3.fpGEQ(t, dur), val == TERM(v)))          # L-tl: at/after the total duration the timeline rests at its terminal value
             ax.append(z3.And(z3.Not(z3.fpIsNaN(t_old)), z3.fpGEQ(t_old, ZERO), z3.Not(z3.fpIsInf(t_old))))
             # invariant of reachable pre-states (inductive hypothesis): Ended => position reached a finite duration, and the target rests
@@ -107,7 +118,7 @@ def main(tier):
             else:
                 claims['event-iff-state-change'] = z3.BoolVal(False)
             for name, cl in claims.items():
-                ob = check.add(Obligation(f'C18.step[{"tl" if has_tl else "no-tl"},{"target" if has_tgt else "no-target"}].{name}', [], [], words=name.replace('-', ' ') + ' (one frame of animate from an arbitrary Animator state, symbolic delta)'))
+                ob = check.add(Obligation(f'C18.step[{"tl" if has_tl else "no-tl"},{"target" if has_tgt else "no-target"}{",after-another-animator(" + other + ")" if other else ""}].{name}', [], [], words=name.replace('-', ' ') + ' (one frame of animate from an arbitrary Animator state, symbolic delta' + ('; another entity with an arbitrary animator is iterated first' if other else '') + ')'))
                 s = z3.Solver(); s.set('timeout', 30000)
                 s.add(*r.pc); s.add(*ax); s.add(*inv); s.add(z3.Not(cl))
                 t0 = time.time(); c = s.check()
@@ -116,7 +127,9 @@ def main(tier):
                 rr.status = 'unsat' if c == z3.unsat else ('sat' if c == z3.sat else 'unknown')
                 if c == z3.sat:
                     mdl = s.model()
-                    rr.model = dict(state=mdl.eval(st, model_completion=True).as_long(), enabled=z3.is_true(mdl.eval(enabled, model_completion=True)),
+                    rr.model = dict(other=other, other_enabled=(z3.is_true(mdl.eval(z3.Bool('other_enabled'), model_completion=True)) if other else None),
+                                    other_state=(mdl.eval(z3.BitVec('other_state', 64), model_completion=True).as_long() if other else None),
+                                    state=mdl.eval(st, model_completion=True).as_long(), enabled=z3.is_true(mdl.eval(enabled, model_completion=True)),
                                     new_state=mdl.eval(ns, model_completion=True).as_long(), has_tl=has_tl, has_tgt=has_tgt, claim=name,
                                     pos=fpnum(mdl.eval(t_old, model_completion=True)), delta=mdl.eval(delta, model_completion=True).as_long() / 1e9,
                                     delay=fpnum(mdl.eval(dly, model_completion=True)), dur=fpnum(mdl.eval(dur, model_completion=True)),
@@ -128,7 +141,7 @@ def main(tier):
     # merge duplicates (the same claim on several paths): report per claim
     sat_claims = {}
     for ob in check.obligations:
-        if ob.result.status == 'sat': sat_claims.setdefault(ob.claim, ob)
+        if ob.result.status == 'sat': sat_claims.setdefault((ob.claim, (ob.result.model or {}).get('other')), ob)
     for claim, ob in sat_claims.items():
         if getattr(ob, 'schedule', False): continue
         confirm(check, ob)
@@ -158,6 +171,26 @@ def schedule_obligations(check, prog, enums):
     base_model = dict(state=2, enabled=True, new_state=2, has_tl=True, has_tgt=True, claim='ended-at-most-one-frame-late', pos=3.0, delta=0.25, delay=1.0, dur=3.0, x0=7.0)
     if not ok and not problems:
         replay_schedule(check, ob, base_model, {}, f'animate::<T> is registered {len(mine)} time(s) in {[l for l, _ in mine]}')
+    # every execution path of build (what the App already contains is arbitrary) must register the system
+    for i, (pc, precs, pcalls) in enumerate(getattr(m, 'schedule_paths', [])[1:], 1):
+        pm = [(l, c) for l, c in precs if 'animate' in c.systems]
+        ob2 = check.add(Obligation(f'C18.schedule.animate-registered-once-in-Update.path{i}', [], [], words='every execution path of AnimationPlugin::build (whatever the App already contains, e.g. resources added by another AnimationPlugin<U>) registers animate::<T> exactly once in Update'))
+        ok2 = len(pm) == 1 and pm[0][0].replace(' ', '').endswith('bevy::app::Update')
+        s_ = z3.Solver(); s_.add(*pc); feasible = s_.check() == z3.sat
+        wit = {}
+        if feasible:
+            mdl = s_.model(); wit = {k: z3.is_true(mdl.eval(v, model_completion=True)) for k, v in getattr(m, 'schedule_fresh', {}).items()}
+        ob2.result = result('unsat' if (ok2 or not feasible) else 'sat', model=wit); ob2.claim = 'schedule'; ob2.schedule = True
+        if not ok2 and feasible:
+            try:
+                nat = run_replay([{'kind': 'bevy_two_plugins'}], 'dev', 'replay_bevy', timeout=900)[0]
+                check.traces_validated += 1
+                if nat.get('violated'):
+                    check.report_violation(ob2.name, None, f'on the path of AnimationPlugin::build taken when {wit}, animate::<T> is registered {len(pm)} time(s); on a real App with AnimationPlugin::<V> and AnimationPlugin::<W>: {nat.get("detail")}', {'kind': 'bevy_two_plugins'})
+                else:
+                    check.inconclusive.append(f'{ob2.name}: a build path that does not register animate::<T> ({wit}) was not reproduced by the two-plugin App: {nat}')
+            except Exception as e:
+                check.inconclusive.append(f'{ob2.name}: bevy replay unavailable ({e})')
     for label, cfg in mine:
         for cond in cfg.conditions:
             res, problems = bs.condition_can_be_false(prog, enums, cond)
@@ -216,6 +249,8 @@ def step_cases(mv):
     delay = ok(mv['delay'], 1.0); pos = ok(mv['pos'], 0.0); delta = min(ok(mv['delta'], 0.25), 1e9); x0 = ok(mv['x0'], 7.0)
     if abs(x0) > 1e6 or x0 in (10.0, 20.0): x0 = 7.0
     base = dict(kind='bevy_step', pre_state=mv['state'], enabled=mv['enabled'], has_tl=mv['has_tl'], has_tgt=mv['has_tgt'])
+    if mv.get('other'):
+        base['other'] = mv['other']; base['other_enabled'] = bool(mv.get('other_enabled'))
     out = [dict(base, pos=pos, delta=delta, delay=delay, dur=dur, x0=x0)]
     for dl, du in ((1.0, 3.0), (0.0, 2.0), (1.0, 'inf')):
         for p in (0.0, 0.5, 1.0, 2.0, 3.0, 5.0):
